@@ -46,4 +46,12 @@ PROPS = {
         "level_note": "Trusted: Lean kernel; extractor; harness. The property is only partially provable on the current design (free-list reuse).",
         "assumptions": [],
     },
+    "C21": {
+        "lean": "Props.C21",
+        "facts": ["attrCacheDefaultSize", "dirCacheDefaultEntries", "dirCacheDefaultMaxDirSize", "dirTtlDefaultNs",
+                  "attrTtlDefaultNs", "negTtlDefaultNs", "disableNegativePurges"],
+        "level_text": "For both caches, every capacity and clock value: the invariant 'unique keys and at most cap entries' is preserved by every atomic action (each operation, and the two critical sections of Get separately, so every interleaving of concurrent operations is a sequence of these) and hence holds after any sequence; a lookup after a store returns the stored value exactly while unexpired (strict / non-strict bound per cache), nothing after expiry, invalidation or for absent keys; a store into a full cache drops exactly the last key of the recency order; hits and overwrites move the key to the front; directory invalidation removes exactly the negative direct children; negative entries exist only while enabled (invariant over all actions). The real AttrCache/DirCache run on a virtual clock and are compared with the model on results, sizes and the complete recency order.",
+        "level_note": "Trusted: Lean kernel; container/list and Go maps (modelled as one recency-ordered list); the virtual-clock overlay (time.Now/Since rewritten in a regenerated copy of cache.go); extractor; harness. Go's memory model below the granularity of a mutex critical section is not modelled.",
+        "assumptions": ["copy isolation is checked by mutating returned/stored values in the harness (outside the value model)"],
+    },
 }
